@@ -25,6 +25,7 @@ typedef struct carquet_statistics_builder {
 
     bool has_min;
     bool has_max;
+    bool unbounded;       /* a value did not fit min/max storage: no bounds are emitted */
     int64_t null_count;
     int64_t distinct_count;
     int64_t num_values;
@@ -144,6 +145,7 @@ void carquet_statistics_builder_reset(carquet_statistics_builder_t* builder) {
 
     builder->has_min = false;
     builder->has_max = false;
+    builder->unbounded = false;
     builder->null_count = 0;
     builder->distinct_count = 0;
     builder->num_values = 0;
@@ -201,6 +203,12 @@ carquet_status_t carquet_statistics_add_values(
     size_t value_size = get_value_size(builder->type, builder->type_length);
     if (value_size == 0) {
         return CARQUET_ERROR_INVALID_ARGUMENT;  /* Use byte array API */
+    }
+    if (value_size > sizeof(builder->min_value)) {
+        /* Values do not fit the min/max storage: statistics stay absent */
+        builder->unbounded = true;
+        builder->num_values += num_values;
+        return CARQUET_OK;
     }
 
     const uint8_t* data = (const uint8_t*)values;
@@ -306,8 +314,9 @@ carquet_status_t carquet_statistics_add_byte_arrays(
         const uint8_t* val = values[i].data;
         size_t val_len = (size_t)values[i].length;
 
-        /* Skip if too large */
+        /* Too large to track: min/max would no longer bound the data */
         if (val_len > sizeof(builder->min_value)) {
+            builder->unbounded = true;
             continue;
         }
 
@@ -377,7 +386,7 @@ carquet_status_t carquet_statistics_build(
     }
 
     /* Min value */
-    if (builder->has_min && builder->min_len > 0) {
+    if (builder->has_min && !builder->unbounded && builder->min_len > 0) {
         if (arena) {
             stats->min_value = carquet_arena_memdup(arena,
                 builder->min_value, builder->min_len);
@@ -395,7 +404,7 @@ carquet_status_t carquet_statistics_build(
     }
 
     /* Max value */
-    if (builder->has_max && builder->max_len > 0) {
+    if (builder->has_max && !builder->unbounded && builder->max_len > 0) {
         if (arena) {
             stats->max_value = carquet_arena_memdup(arena,
                 builder->max_value, builder->max_len);
